@@ -272,6 +272,20 @@ func oracleC02(f *sessionFam, w *World, res *Result) []Violation {
 		if c := w.evs(a, "close"); len(c) > 0 {
 			closeSeq = c[0].Seq
 		}
+		// messages are handed to the application while the session is open: a session that the application has closed
+		// gracefully (state 'closing', waiting for the client's next poll) delivers nothing any more. (A message in the
+		// very instant of the Close call raced with it: its handler had passed the state test.)
+		for _, e := range w.evs(a, "message") {
+			if readyOf(e.St) != "closing" {
+				continue
+			}
+			for _, ac := range w.evs(a, "app-close") {
+				if ac.T < e.T {
+					l.add("delivered-only-while-open", "closing", fmt.Sprintf("%s [%s]: message %q delivered at %v in state 'closing' (Close was called at %v)", a, ctx, clip(e.S, 40), e.T, ac.T))
+					break
+				}
+			}
+		}
 		i := 0
 		delivered := map[int]bool{}
 		for _, e := range w.evs(a, "message") {
